@@ -42,6 +42,9 @@ CoverSigs ==
   \cup {Sg(sf, <<P("u16")>>, FALSE, P("u32")) : sf \in SelfKinds}
   \cup {Sg(K("opq"), <<P("u8")>>, TRUE, r) : r \in {x \in RetTypes : WriteOK(x)}}
   \cup {Sg(K("none"), <<t>>, FALSE, P("bool")) : t \in {StructT(n) : n \in InStructs}}
+  \* several validated strings in one call (each is checked separately by bindings that validate UTF-8)
+  \cup {Sg(K("opq"), <<StrT("utf8", FALSE), StrT("utf8", FALSE)>>, FALSE, P("u8")),
+        Sg(K("none"), <<StrT("utf8", FALSE), P("u16"), StrT("utf8", FALSE), StrT("u8", FALSE)>>, FALSE, UnitT)}
 
 \* C10: every payload allowed in Option, in parameter and return position, in both spellings; pointer payloads;
 \* results over every combination of arms (incl. unit arms)
